@@ -190,3 +190,46 @@ class InspectMixin:
         kk = self.key_term(k)
         aa, bb = self.dict_arr(a), self.dict_arr(b)
         return self.to_val_bool(aa == z3.Store(bb, kk, z3.Select(aa, kk)))
+
+    # ------------------------------------------------------------------ jsonschema (assumed)
+    def _f_schema_ok(self):
+        return z3.Function('schema_ok', smt.DictV, smt.DictV, smt.DictV, z3.BoolSort())
+
+    def bi_jsonschema_validate(self, args, kwargs, dstar=None):
+        """ASSUMED: jsonschema.validate(instance, **kw) raises jsonschema.ValidationError exactly when the uninterpreted
+        schema_ok(instance content, default keyword content, call keyword content) fails; no effect; nothing else"""
+        inst = self.dict_arr(args[0])
+        empty = z3.K(Val, smt.ABSENT)
+        aa, bb = empty, empty
+        if dstar is not None:
+            def plain(arr):
+                # {**{}, **x} is x
+                arr = smt.simp(arr)
+                e1 = self.merged_dicts.get(arr.get_id())
+                if e1 is not None and smt.simp(e1[1]).eq(smt.simp(empty)):
+                    return plain(e1[2])
+                return arr
+            ent = self.merged_dicts.get(self.dict_arr(dstar).get_id())
+            if ent is not None:
+                aa, bb = plain(ent[1]), plain(ent[2])
+            else:
+                bb = self.dict_arr(dstar)
+        for k, v in kwargs.items():
+            bb = z3.Store(bb, Val.str(z3.StringVal(k)), v)
+        ok = self._f_schema_ok()(inst, smt.simp(aa), smt.simp(bb))
+        if self.branch(z3.Not(ok)):
+            exc = self.alloc(builtin_class('JsonSchemaValidationError'))
+            t = self.alloc(builtin_class('tuple'))
+            msg = self.fresh('schema_msg')
+            self._add_axiom(Val.is_str(msg))
+            self.set_seq(t, z3.Unit(msg))
+            self.set_attr_raw(exc, 'args', t)
+            from .core import PyRaise
+            raise PyRaise(exc, 'jsonschema.validate (assumed)')
+        return smt.NONE
+
+    bi_jsonschema_validate.takes_dstar = True
+
+    def prim_schema_ok(self, e, fr):
+        a, b, c = (self.ev(x, fr) for x in e.args)
+        return self.to_val_bool(self._f_schema_ok()(self.dict_arr(a), self.dict_arr(b), self.dict_arr(c)))
